@@ -16,6 +16,14 @@ def handle (stream : String) (args : List String) : Option String :=
       match parseDuration s with
       | .ok d => some ("ok " ++ encInt d)
       | .error e => some ("err " ++ encStr (durErrMsg e))
+  | "dur.bytes", [a, _] =>
+    -- the runes Go's `[]rune(string(bytes))` conversion yields (invalid bytes are U+FFFD)
+    match decStr a with
+    | none => some "bad-arg"
+    | some s =>
+      match parseDuration s with
+      | .ok d => some ("ok " ++ encInt d)
+      | .error e => some ("err " ++ encStr (durErrMsg e))
   | "dur.format", [a] =>
     match decInt a with
     | none => some "bad-arg"
